@@ -52,7 +52,7 @@ BASES = ["abs", "rel", "abs_slash", "via_symlink", "dotdot", "dot", "rel_dotslas
 ENTRIES = ["numpy", "__array__", "tobytes", "tofile_bytesio", "tofile_file", "lazy", "load_to_model", "save"]
 # where the external tensor sits in the loaded model
 WHERES = ["main_initializer", "subgraph_initializer", "depth2_subgraph_initializer", "constant_attr_main", "constant_attr_subgraph",
-          "constant_attr_depth2", "constant_attr_function", "tensors_attr_subgraph"]
+          "constant_attr_depth2", "constant_attr_function", "tensors_attr_subgraph", "function_attr_default"]
 PRE = ["none", "numpy", "tobytes", "__array__", "numpy_then_release"]
 HARMLESS = b"HARMLESS" * 2
 LOADS = ["bare", "dot_slash", "rel_dotdot", "absolute", "via_symlink_dir", "rel_subdir", "symlink_dir_dotdot_abs", "symlink_dir_dotdot_rel",
@@ -506,6 +506,17 @@ def _model_with_tensor(onnx, tp, where):
     elif where == "constant_attr_function":
         functions = [oh.make_function("local", "fn", [], ["y"], [const_node("y")], [oh.make_opsetid("", 20)])]
         nodes = [oh.make_node("fn", [], ["o"], domain="local")]
+    elif where == "function_attr_default":
+        # the default value of a function's attribute parameter (FunctionProto.attribute_proto), referenced by a body node
+        cn = onnx.NodeProto(op_type="Constant", name="const_y", output=["y"])
+        ra = cn.attribute.add()
+        ra.name, ra.type, ra.ref_attr_name = "value", onnx.AttributeProto.TENSOR, "w"
+        fproto = oh.make_function("local", "fn", [], ["y"], [cn], [oh.make_opsetid("", 20)])
+        d = fproto.attribute_proto.add()
+        d.name, d.type = "w", onnx.AttributeProto.TENSOR
+        d.t.CopyFrom(tp)
+        functions = [fproto]
+        nodes = [oh.make_node("fn", [], ["o"], domain="local")]
     else:  # tensors_attr_subgraph: a TENSORS attribute on a custom node inside a subgraph
         n = onnx.NodeProto(op_type="Custom", domain="custom", name="cust", output=["t"])
         a = n.attribute.add()
@@ -522,6 +533,10 @@ def _model_with_tensor(onnx, tp, where):
 def _all_ir_tensors(ir, model):
     out = []
     graphs = [model.graph] + [f.graph for f in model.functions.values()]
+    for f in model.functions.values():
+        for a in f.attributes.values():
+            if not a.is_ref() and a.type == ir.AttributeType.TENSOR and a.value is not None:
+                out.append(a.value)
     seen = set()
     while graphs:
         g = graphs.pop()
